@@ -34,7 +34,11 @@ ASSUMPTIONS = ["the parallel wrapper hands candidate chunks as feature rows to t
                "SubSamplingWrapper(exclude_non_subsample=True) with feature-row candidates needs >= 1 labelled sample (it removes all unlabelled rows)",
                "selection is only compared when the best candidate is unique (the wrapper breaks ties with its own generator)"]
 REQUIRED_MONITORS = ["C20.parallel-twin-oracle", "C20.subsampling-translation-checker", "C20.saw-order-checker", "C20.schedule-perturbation"]
-PAR_OK = [n for n, e in POOL.items() if e.independent and e.feat and e.selection == "max" and n not in ("EMCM",)]
+# not claimed for the parallel wrapper: strategies whose utilities consume random numbers (bootstrap in EMCM; random
+# tie-breaking of the committee members' hard votes in QBC vote_entropy / variation_ratios) - evaluating the candidates in
+# chunks legitimately changes the random stream, so equal-seed utilities are not comparable
+PAR_OK = [n for n, e in POOL.items() if e.independent and e.feat and e.selection == "max"
+          and n not in ("EMCM", "QBC_VE_list", "QBC_VR_list")]
 SUB_OK = [n for n, e in POOL.items() if e.selection != "rt" and not n.startswith("Badge")]
 SAW_OK = [n for n, e in POOL.items() if e.kind in ("clf", "both") and e.arbitrary_index_ok]
 
